@@ -189,7 +189,7 @@ func (em *Emitter) globalConst(name, sort string) string {
 
 func (em *Emitter) typeTag(t types.Type) int {
 	// identical types must get one tag however they are spelled (any vs interface{}, aliases)
-	k := strings.ReplaceAll(types.TypeString(types.Unalias(t), nil), "interface{}", "any")
+	k := strings.ReplaceAll(types.TypeString(deepUnalias(t), nil), "interface{}", "any")
 	if id, ok := em.typeTags[k]; ok {
 		return id
 	}
@@ -225,7 +225,25 @@ func (em *Emitter) strConst(s string) string {
 // ---- sorts ----
 
 func typeName(t types.Type) string {
-	return sanitize(types.TypeString(t, func(p *types.Package) string { return p.Name() }))
+	return sanitize(types.TypeString(t, pkgQualifier))
+}
+
+// pkgQualifier names a package in SMT identifiers (heaps, struct sorts, impl_ predicates). Packages of this
+// repository that share their name with a standard-library package (ast, token, scanner, ...) get their parent
+// directory as a prefix: go/ast.CallExpr and xgo/ast.CallExpr are different structs and must not share a heap.
+func pkgQualifier(p *types.Package) string {
+	path := p.Path()
+	if i := strings.LastIndex(path, "/"); i > 0 && strings.Contains(path, ".") {
+		parent := path[:i]
+		if j := strings.LastIndex(parent, "/"); j >= 0 {
+			parent = parent[j+1:]
+		}
+		switch p.Name() {
+		case "ast", "token", "scanner", "parser", "format", "printer", "types", "errors", "build", "doc":
+			return parent + "_" + p.Name()
+		}
+	}
+	return p.Name()
 }
 
 func (em *Emitter) sortOf(t types.Type) string {
